@@ -63,6 +63,9 @@ Definition class_plain (c : dcls) : bool :=
                         | _ => true
                         end) (d_fields c).
 
+Definition class_names (c : dcls) : list string :=
+  flat_map (fun fd => f_name fd :: match f_kind fd with FSub alts _ => map a_fname alts | _ => [] end) (d_fields c).
+
 (* a config file may only be named once the class it talks about ("a") has an int field for each of its keys *)
 Definition file_fits (adds : list add) (kvs : kv) : bool :=
   forallb (fun p : string * string =>
@@ -78,11 +81,15 @@ Definition files_fit (ftbl : list (string * kv)) (adds : list add) (files : list
 
 Definition op_in_scope (ftbl : list (string * kv)) (s : state) (o : op) : bool :=
   match o with
-  | Construct i c cfgarg => negb cfgarg || nestmode_eqb (nm c) NDefault
+  | Construct i c cr cfgarg => (negb cfgarg || nestmode_eqb (nm c) NDefault) && negb (crmode_eqb cr CRExplicit)
   | AddArgs i d dest =>
       match slot_get (st_slots s) i with
       | None => false
       | Some p => str_in dest ["a"; "b"] && negb (str_in dest (map snd (p_adds p))) && class_plain d
+                  (* the conflict resolver's renaming is not modelled: names are shared only where a clash just raises *)
+                  && (crmode_eqb (p_cr p) CRNone
+                      || negb (existsb (fun n => str_in n (flat_map (fun ad : add => class_names (fst ad)) (p_adds p)))
+                                       (class_names d)))
       end
   | Parse i argv =>
       match slot_get (st_slots s) i with
